@@ -8,7 +8,9 @@
      evaluated (C13-R1), && || ?: skip their dead operand (C14-R1), integer division by zero raises (C14-R5), no backend transform runs on an
      unvalidated kernel (C22-R1)
 """
-from vlib.facts import kids, strip, walk, is_call, call_args, call_object, callee, render, literal, noid
+import os
+
+from vlib.facts import is_null_const, kids, strip, walk, is_call, call_args, call_object, callee, render, literal, noid
 from vlib.cfg import write_target
 from vlib.refile import refile
 from vlib.work import AnalysisBroken
@@ -22,6 +24,214 @@ PP = "occa::lang::preprocessor_t::"
 FORBIDDEN = {"abort", "exit", "_exit", "quick_exit", "std::terminate", "std::abort", "std::exit", "__assert_fail", "raise"}
 
 
+NULL_LOCAL_EXCEPTIONS = {
+    ("occa::lang::parser_t::loadNamespaceStatement", "currentSmnt"):
+        "assigned in the first iteration of a loop over `names`, which holds at least one entry: the name loop above pushes a name before it can break",
+}
+DIM_ARRAYS = {"kernelInnerDims", "knownInnerDims", "maxInnerDims"}
+
+
+def front_end_nulls(ctx, R):
+    """R3 / R4 / R5 over every unit of the OKL front end"""
+    import glob
+    from vlib import work
+    units = sorted(os.path.relpath(p, work.REPO) for p in glob.glob(work.REPO + "/src/occa/internal/lang/**/*.cpp", recursive=True))
+    if len(units) < 100:
+        raise AnalysisBroken("front end: only %d units under src/occa/internal/lang" % len(units))
+    prog = ctx.program(units, thorough_all=False)
+    R.analysed["front_end_units"] = len(units)
+    mine = [f for f in prog.funcs.values() if f.d.get("tmpl") != "inst" and f.d["file"].startswith(work.REPO)]
+
+    def derefs_of(f, d):
+        out = []
+        for n in f.walk():
+            if n["k"] == "MemberExpr" and n.get("arrow") and kids(n) and strip(kids(n)[0])["k"] == "DeclRefExpr" and strip(kids(n)[0]).get("d") == d:
+                out.append(n)
+            elif n["k"] == "UnaryOperator" and n.get("op") == "*" and strip(kids(n)[0])["k"] == "DeclRefExpr" and strip(kids(n)[0]).get("d") == d:
+                out.append(n)
+        return out
+
+    def writes_of(f, d):
+        w = set()
+        for dn in f.local_defs().get(d, []):
+            if dn["k"] != "VarDecl":
+                w.add(dn["i"])
+        for n in f.walk():
+            if n["k"] == "UnaryOperator" and n.get("op") == "&" and strip(kids(n)[0]).get("d") == d:
+                w.add(n["i"])
+            if is_call(n):
+                for a in kids(n):
+                    if a["k"] == "DeclRefExpr" and a.get("d") == d:      # bound to a reference parameter
+                        w.add(n["i"])
+        return w
+
+    def nonnull_known(name, facts):
+        for (k, pol) in facts:
+            kk = noid(k).replace(" ", "")
+            if (kk == name and pol) or (kk in ("(%s==NULL)" % name, "(%s==nullptr)" % name, "(%s==0)" % name, "(NULL==%s)" % name) and not pol):
+                return True
+        return False
+
+    def unguarded_deref(f, v, start=None):
+        """(deref node, path) reachable from the function entry (or `start`) with v possibly null, or None"""
+        cfg = f.cfg
+        w = writes_of(f, v["d"])
+        for dr in derefs_of(f, v["d"]):
+            r = cfg.find_feasible_path(start or (cfg.entry, -1), lambda b, i, e, dr=dr: e == dr["i"], lambda b, i, e: isinstance(e, int) and e in w, null_inits=True, want_facts=True)
+            if r is None:
+                continue
+            p, facts = r
+            if not nonnull_known(v["n"], set(facts) | cfg.path_edge_facts(p)):
+                return dr, p
+        return None
+
+    # ---- R3 -----------------------------------------------------------------------------------------------------------------
+    for f in mine:
+        for v in f.walk():
+            if not (v["k"] == "VarDecl" and "*" in f.tname(v.get("t")) and kids(v) and is_null_const(kids(v)[0])):
+                continue
+            hit = unguarded_deref(f, v)
+            exc = NULL_LOCAL_EXCEPTIONS.get((f.q, v["n"]))
+            if hit is not None and exc:
+                R.ob("C16-R3", True, f.q, "null-init local %s (tabled)" % v["n"], f.site(hit[0]), exc, nontrivial=False)
+                continue
+            R.ob("C16-R3", hit is None, f.q, "null-init local %s" % v["n"], f.site(hit[0]) if hit else f.site(v),
+                 "every dereference is reached only after an assignment or a non-null test" if hit is None else
+                 "`%s` is initialised with NULL and can reach this dereference without being assigned (e.g. a search loop that finds nothing): malformed input crashes the translator" % v["n"], path=hit[1] if hit else None)
+
+    # ---- R4 -----------------------------------------------------------------------------------------------------------------
+    nullable = {}
+    for f in mine:
+        if not f.d["sig"].split("(")[0].strip().endswith("*"):
+            continue
+        for n in f.walk():
+            if n["k"] == "ReturnStmt" and kids(n) and is_null_const(kids(n)[0]):
+                par = f.parent.get(n["i"])
+                sibs = list(kids(par)) if par is not None else []
+                idx = [i for i, s_ in enumerate(sibs) if s_["i"] == n["i"]]
+                txt = " ".join(noid(render(s_, False)) for s_ in (sibs[:idx[0]] if idx else [])[-3:])
+                if "printError" in txt or "success = false" in txt or "errorOn" in txt:
+                    nullable[f.q] = "reports an error and returns NULL"
+    changed = True
+    while changed:
+        changed = False
+        for f in mine:
+            if f.q in nullable or not f.d["sig"].split("(")[0].strip().endswith("*"):
+                continue
+            for n in f.walk():
+                if n["k"] == "ReturnStmt" and kids(n) and is_call(strip(kids(n)[0])) and callee(strip(kids(n)[0])) in nullable:
+                    nullable[f.q] = "forwards %s" % callee(strip(kids(n)[0])).split("::")[-1]
+                    changed = True
+                    break
+    # optional accessors: a virtual method whose base implementation is just `return NULL` ("this kind of node has none")
+    overridden = {o for g in mine for o in (g.d.get("overrides") or ())}
+    for f in mine:
+        body = f.d.get("body")
+        if f.q in nullable or body is None or not f.d["sig"].split("(")[0].strip().endswith("*") or f.q not in overridden:
+            continue
+        st = [x for x in kids(body) if x["k"] != "NullStmt"]
+        if len(st) == 1 and st[0]["k"] == "ReturnStmt" and kids(st[0]) and is_null_const(kids(st[0])[0]) and not f.d["params"]:
+            nullable[f.q] = "optional accessor: the base implementation returns NULL"
+            for g in prog.overriders(f.q):
+                nullable.setdefault(g.q, "overrides optional accessor %s" % f.q.split("::")[-1])
+    R.analysed["error_signalling_nullable_producers"] = sorted(nullable)
+    STORED_NULL_OK = {
+        "occa::lang::preprocessor_t::addCompilerDefine": "stored in the macro map; getMacro() hands NULL out as 'no such macro' and every reader tests it",
+        "occa::lang::preprocessor_t::addSourceDefine": "stored in the macro map; getMacro() hands NULL out as 'no such macro' and every reader tests it",
+    }
+    n4 = 0
+    for f in mine:
+        for c in f.walk():
+            if not (is_call(c) and callee(c) in nullable):
+                continue
+            par = f.parent.get(c["i"])
+            while par is not None and par["k"] in ("ImplicitCastExpr", "ParenExpr", "CStyleCastExpr", "ExprWithCleanups", "CXXStaticCastExpr", "ConditionalOperator"):
+                par = f.parent.get(par["i"])
+            if par is None or par["k"] == "ReturnStmt":
+                continue       # forwarded: the caller's call site is checked instead
+            n4 += 1
+            key = "use of %s()" % callee(c).split("::")[-1]
+            if f.q in STORED_NULL_OK:
+                R.ob("C16-R4", True, f.q, key + " (tabled)", f.site(c), STORED_NULL_OK[f.q], nontrivial=False)
+                continue
+            ok, why = False, "the result is used directly"
+            if (par["k"] == "UnaryOperator" and par.get("op") == "*") or (par["k"] == "MemberExpr" and par.get("arrow")):
+                why = "the result of %s() is dereferenced at once" % callee(c).split("::")[-1]
+            if par["k"] == "VarDecl":
+                hit = unguarded_deref(f, par, start=f.cfg.position(par))
+                tested = any(noid(render(x, False)).replace(" ", "") in ("(!%s)" % par["n"], "(!(!%s))" % par["n"]) or
+                             (x["k"] == "BinaryOperator" and x.get("op") in ("==", "!=") and par["n"] in noid(render(x, False)) and any(is_null_const(y) for y in kids(x)))
+                             for x in f.walk() if x["k"] in ("UnaryOperator", "BinaryOperator")) or any(strip(kids(x)[0]).get("d") == par["d"] for x in f.walk() if x["k"] in ("IfStmt", "WhileStmt") and kids(x) and strip(kids(x)[0])["k"] == "DeclRefExpr")
+                tests = [x for x in f.walk() if (x["k"] == "UnaryOperator" and x.get("op") == "!" and strip(kids(x)[0]).get("d") == par["d"] and strip(kids(x)[0])["k"] == "DeclRefExpr") or
+                         (x["k"] == "BinaryOperator" and x.get("op") in ("==", "!=") and any(strip(y).get("d") == par["d"] for y in kids(x)) and any(is_null_const(y) for y in kids(x))) or
+                         (x["k"] in ("IfStmt", "WhileStmt") and kids(x) and strip(kids(x)[0])["k"] == "DeclRefExpr" and strip(kids(x)[0]).get("d") == par["d"]) or
+                         (x["k"] == "ImplicitCastExpr" and x.get("ck") == "PointerToBoolean" and strip(x)["k"] == "DeclRefExpr" and strip(x).get("d") == par["d"])]
+                ds_ = derefs_of(f, par["d"])
+                # discipline: the result is null-tested, and a test precedes every dereference (the branch correlation behind `bool err = !p` is not tracked)
+                ok = bool(tests) and all(any(f.cfg.before(t_ if t_["k"] not in ("IfStmt", "WhileStmt") else kids(t_)[0], d_) for t_ in tests) for d_ in ds_)
+                if hit is None and tests:
+                    ok = True
+                why = "local `%s` is tested before every dereference" % par["n"] if ok else "local `%s` can be dereferenced or stored while NULL" % par["n"]
+            elif par["k"] in ("BinaryOperator", "CXXOperatorCallExpr") and par.get("op") == "=":
+                tgt = noid(render(strip(kids(par)[0] if par["k"] == "BinaryOperator" else kids(par)[1]), False))
+                # the first later mention of the target must be a null test (`!!t`, `!t`, `t == NULL`, `if (t)`)
+                cfg = f.cfg
+
+                def top(e, f=f, cfg=cfg):
+                    """the element is a whole statement / condition, not a sub-expression of another element"""
+                    if not isinstance(e, int) or f.nodes.get(e) is None:
+                        return False
+                    return not any(a["i"] in cfg.pos for a in f.ancestors(f.nodes[e]) if a["k"] not in ("CompoundStmt", "IfStmt", "ForStmt", "WhileStmt", "DoStmt", "SwitchStmt", "CaseStmt", "DefaultStmt", "CXXForRangeStmt"))
+                first_bad = cfg.find_path(cfg.position(par),
+                                          lambda b, i, e, f=f, tgt=tgt: top(e) and _mentions_untested(f, f.nodes[e], tgt),
+                                          lambda b, i, e, f=f, tgt=tgt: top(e) and _is_null_test(f, f.nodes[e], tgt))
+                ok = first_bad is None
+                why = "`%s` is null-tested before its first use" % tgt if ok else "`%s` is used before it is tested: a failed parse leaves NULL there" % tgt
+            R.ob("C16-R4", ok, f.q, key, f.site(c),
+                 why if ok else why + " - the callee has already reported the error, but this loader's own error flag does not know: `@tile(+, @outer, @inner)` / `__attribute__((2 *)) int y;` crash with SIGSEGV")
+    if n4 < 6:
+        raise AnalysisBroken("only %d uses of error-signalling nullable producers found" % n4)
+
+    # ---- R5 -----------------------------------------------------------------------------------------------------------------
+    okl = prog.fn("occa::lang::okl::pathHasValidOklLoopOrdering")
+    limits = set()
+    for n in okl.walk():
+        if n["k"] == "BinaryOperator" and n.get("op") in (">", ">=") and isinstance(literal(kids(n)[1]), int):
+            lim = literal(kids(n)[1]) + (0 if n["op"] == ">" else -1)
+            limits.add((noid(render(kids(n)[0], False)), lim))
+    depth_limit = min([l for (_, l) in limits], default=None)
+    R.ob("C16-R5", len(limits) >= 2 and depth_limit is not None, okl.q, "validator bounds the @outer and @inner nesting depth", "%s:%d" % (okl.relfile, okl.d["line"]),
+         "nesting depth limited to %s for %s" % (depth_limit, sorted(v for v, _ in limits)) if len(limits) >= 2 else "no depth limit on OKL loop nests")
+    for f in mine:
+        for n in f.walk():
+            if n["k"] == "VarDecl" and n.get("n") in DIM_ARRAYS:
+                t = f.tname(n.get("t"))
+                size = int(t.split("[")[1].split("]")[0]) if "[" in t else None
+                ok = size is not None and depth_limit is not None and size >= depth_limit
+                R.ob("C16-R5", ok, f.q, "array %s[%s] >= validated nesting depth %s" % (n["n"], size, depth_limit), f.site(n),
+                     "indexed by an OKL loop index < %s" % depth_limit if ok else "the array has fewer entries than loops may nest: a deeper nest writes past it")
+
+
+def _is_null_test(f, n, tgt):
+    for x in walk(n):
+        t = noid(render(x, False)).replace(" ", "")
+        g = tgt.replace(" ", "")
+        if x["k"] == "UnaryOperator" and x.get("op") == "!" and t in ("(!%s)" % g, "(!(!%s))" % g):
+            return True
+        if x["k"] == "BinaryOperator" and x.get("op") in ("==", "!=") and g in t and any(is_null_const(y) for y in kids(x)):
+            return True
+    return False
+
+
+def _mentions_untested(f, n, tgt):
+    if _is_null_test(f, n, tgt):
+        return False
+    g = tgt.replace(" ", "")
+    if n["k"] in ("BinaryOperator", "CXXOperatorCallExpr") and n.get("op") == "=":
+        return False
+    return any(noid(render(x, False)).replace(" ", "") == g for x in walk(n) if x["k"] in ("MemberExpr", "DeclRefExpr"))
+
+
 def run(ctx):
     R = ctx.R
     prog = ctx.program(UNITS)
@@ -31,6 +241,9 @@ def run(ctx):
     R.assumptions += ["memory exhaustion and unbounded recursion depth on pathologically nested input are out of scope of the structural clauses"]
     R.rule("C16-R1", "front end throws only occa::exception and never aborts the process", floor=3)
     R.rule("C16-R2", "macro expansion is guarded against re-entry", floor=5)
+    R.rule("C16-R3", "a pointer local initialised with NULL is dereferenced only where an assignment or a non-null test reaches (whole front end)", floor=20)
+    R.rule("C16-R4", "a NULL result that signals a reported error is tested (folded into the error state) before it is used", floor=8)
+    R.rule("C16-R5", "the three-entry dimension arrays are indexed by an OKL loop index that the validator bounds by 3", floor=4)
 
     # ---- R1 --------------------------------------------------------------------------
     n_throw = 0
@@ -79,7 +292,7 @@ def run(ctx):
     R.ob("C16-R2", callers == {pi.q}, PP + "expandMacro", "who-calls", "", "only processIdentifier expands macros: %s" % sorted(callers))
     em = prog.fn(PP + "expandMacro")
     ecfg = em.cfg
-    rec = [n for n in em.walk() if write_target(n) is not None and "expandedMacros[" in noid(render(write_target(n), False))]
+    rec = [n for n in em.walk() if write_target(n) is not None and "expandedMacros[(&macro)]" in noid(render(write_target(n), False)).replace(" ", "")]
     pushes = [c_ for c_ in em.walk() if c_["k"] == "CXXMemberCallExpr" and callee(c_).endswith("::pushInput")]
     ok = len(rec) == 1 and bool(pushes) and all(ecfg.before(rec[0], p_) for p_ in pushes)
     R.ob("C16-R2", ok, em.q, "macro recorded before its tokens re-enter the input", em.site(rec[0]) if rec else em.relfile, "every pushInput is dominated by expandedMacros[&macro] = true")
@@ -88,6 +301,32 @@ def run(ctx):
     R.ob("C16-R2", ok, em.q, "release registered at the expansion's last token", em.site(endrec[0]) if endrec else em.relfile, "the macro is filed under the last token of its expansion")
     erasers = {f.q for f in prog.funcs.values() for c_ in f.walk() if c_["k"] == "CXXMemberCallExpr" and callee(c_).endswith("::erase") and call_object(c_) is not None and noid(render(call_object(c_), False)) == "this->expandedMacros"}
     R.ob("C16-R2", erasers == {PP + "clearExpandedMacros"}, PP + "expandedMacros", "who-erases", "", "the record is dropped only by clearExpandedMacros: %s" % sorted(erasers))
+
+    # macros active when an expansion starts stay disabled until it ends (arguments are read through the processing path, which releases records)
+    calls_exp = [c_ for c_ in em.walk() if is_call(c_) and callee(c_) == "occa::lang::macro_t::expand"]
+    snap = None
+    for n in em.walk():
+        if n["k"] == "CXXMemberCallExpr" and callee(n).endswith("::push_back") and calls_exp:
+            par = [a for a in em.ancestors(n) if a["k"] in ("ForStmt", "CXXForRangeStmt", "WhileStmt")]
+            # a loop over expandedMacros that is entered before macro.expand() and copies its keys
+            if par and "expandedMacros" in noid(render(par[0], False)) and ecfg.before(par[0], calls_exp[0]):
+                snap = strip(call_object(n))
+    rearm = None
+    if snap is not None and snap["k"] == "DeclRefExpr":
+        for n in em.walk():
+            t_ = write_target(n)
+            if t_ is not None and "this->expandedMacros[" in noid(render(t_, False)) and literal(kids(n)[-1]) is True and calls_exp and ecfg.before(calls_exp[0], n):
+                loops = [a for a in em.ancestors(n) if a["k"] in ("ForStmt", "CXXForRangeStmt", "WhileStmt")]
+                if loops and any(x["k"] == "DeclRefExpr" and x.get("d") == snap["d"] for x in walk(loops[0])):
+                    fs_ = {(noid(k).replace(" ", ""), pol) for (k, pol) in ecfg.facts_at(n, ecfg.facts_in())}
+                    if any("expandedMacros.find(" in k and "==this->expandedMacros.end()" in k and pol for (k, pol) in fs_) or any("expandedMacros.find(" in k and "!=" in k and not pol for (k, pol) in fs_):
+                        rearm = n
+    R.ob("C16-R2", snap is not None and rearm is not None, em.q, "macros active before the expansion are re-armed after the arguments were read", em.site(rearm) if rearm is not None else em.relfile,
+         "expandedMacros is snapshotted before macro.expand() and every released entry is re-inserted (and filed under the new expansion's last token)" if rearm is not None else
+         "reading the arguments of a function-like macro releases the enclosing macros (their last token is consumed as an argument) and nothing re-arms them: "
+         "`#define F(x) G(x)` / `#define G(x) F(x)` / `F(1)` expands forever")
+
+    front_end_nulls(ctx, R)
 
     # ---- shared clauses ------------------------------------------------------------------
     refile(ctx, c12, {"C12-R1": "C16-S1", "C12-R2": "C16-S2"}, "C12")
